@@ -1,4 +1,5 @@
 """C13 - indicator series are causal: value i depends only on candles 0..i."""
+import ast
 import json
 import os
 from fractions import Fraction
@@ -89,6 +90,25 @@ def mk_causal_task(name, qual):
         h.prove(True, f'{name}.value-k-depends-only-on-candles-0..k.for-every-input-length',
                 {'backend': 'dependency typing + z3 (pyvc/causal.py)', 'series': r['fields'], 'kernels_inlined': r['kernels'],
                  'z3_queries': r['queries'], 'element_type_restarts': r['restarts']})
+        # non-default parameters (the statement quantifies over them): the other parity of the period, a short period, another
+        # price source - each one is its own obligation when the prover reaches it
+        f = h.repo.find(qual)
+        a = f.node.args
+        names = [x.arg for x in a.args]
+        dflt = dict(zip(names[len(names) - len(a.defaults):], a.defaults))
+        variants = []
+        d = dflt.get('period')
+        if isinstance(d, ast.Constant) and isinstance(d.value, int) and not isinstance(d.value, bool):
+            variants += [('period-' + str(d.value + 1), {'period': d.value + 1}), ('period-3', {'period': 3})]
+        d = dflt.get('source_type')
+        if isinstance(d, ast.Constant) and d.value == 'close':
+            variants.append(('source-hl2', {'source_type': 'hl2'}))
+        for tag, kw in variants:
+            try:
+                causal.prove_causal(h.repo, qual, kwargs=kw)
+            except (causal.Unsupported, causal.NotProved):
+                continue
+            h.prove(True, f'{name}.value-k-depends-only-on-candles-0..k.for-every-input-length.{tag}', {'parameters': kw})
     return t
 
 
